@@ -1,9 +1,299 @@
-import SynthVerif.Model.Adsr
-import SynthVerif.Model.Lfo
-import SynthVerif.Model.Quantizer
-import SynthVerif.Model.Midi
-import SynthVerif.Model.Glide
-import SynthVerif.Model.Ribbon
+import SynthVerif.Props.QuantLemmas
+import SynthVerif.F32.Ops
+import Mathlib.Tactic.NormNum
+import Mathlib.Tactic.Linarith
+/-!
+# C07 — Quantizer never outputs a forbidden note
+
+`QInv`: the scale bitfield uses only its 12 low bits and is not empty.  It holds initially and is preserved by
+`allow` and `forbid` (`forbid` cannot panic under it, and a `forbid` that would empty the scale leaves the last
+note of its argument allowed).  `convert_allowed`: under `QInv`, for **every** input value (any f32, NaN and
+infinities included) and any cached previous conversion, the reported note has a pitch class that is allowed at
+the time of the call.  `history_allowed`: hence for every history of allow / forbid / convert calls.
+-/
 namespace C07
-theorem placeholder_to_be_replaced : True := trivial
+open F32 Quantizer
+
+def QInv (q : Quantizer) : Prop := q.allowed < 2 ^ 12 ∧ q.allowed ≠ 0
+
+theorem bit_eq_testBit (a n : Nat) : bit a n = a.testBit n := by
+  rw [Bool.eq_iff_iff]
+  simp [bit, Nat.shiftRight_eq_div_pow, Nat.testBit_eq_decide_div_mod_eq]
+
+theorem inv_new : QInv Quantizer.new := by unfold QInv; decide
+
+/-- under the invariant some pitch class 0..11 is allowed -/
+theorem exists_allowed {q : Quantizer} (h : QInv q) : ∃ n, n < 12 ∧ bit q.allowed n = true := by
+  obtain ⟨i, hi⟩ := Nat.exists_testBit_of_ne_zero h.2
+  refine ⟨i, ?_, by rw [bit_eq_testBit]; exact hi⟩
+  by_contra hge
+  have : q.allowed < 2 ^ i := lt_of_lt_of_le h.1 (Nat.pow_le_pow_right (by norm_num) (by omega))
+  rw [Nat.testBit_lt_two_pow this] at hi
+  exact absurd hi (by decide)
+
+/-! ### scale edits -/
+
+theorem bit_allow_one (a n k : Nat) : bit (a ||| (1 <<< n)) k = (bit a k || decide (n = k)) := by
+  simp [bit_eq_testBit, Nat.one_shiftLeft, Nat.testBit_two_pow]
+
+theorem bit_forbid_one (a n k : Nat) (hk : k < 16) :
+    bit (a &&& (0xffff ^^^ (1 <<< n))) k = (bit a k && !decide (n = k)) := by
+  have e : (0xffff : Nat) = 2 ^ 16 - 1 := rfl
+  rw [e]
+  simp only [bit_eq_testBit, Nat.one_shiftLeft, Nat.testBit_and, Nat.testBit_xor, Nat.testBit_two_pow,
+    Nat.testBit_two_pow_sub_one, hk, decide_true, Bool.true_xor]
+
+theorem allow_lt (q : Quantizer) (ns : List Nat) (hns : ∀ n ∈ ns, n < 12) (h : q.allowed < 2 ^ 12) :
+    (q.allow ns).allowed < 2 ^ 12 := by
+  simp only [Quantizer.allow]
+  induction ns generalizing q with
+  | nil => simpa using h
+  | cons n ns ih =>
+    simp only [List.foldl_cons]
+    refine ih { q with allowed := q.allowed ||| (1 <<< n) } (fun x hx => hns x (by simp [hx])) ?_
+    apply Nat.or_lt_two_pow h
+    rw [Nat.one_shiftLeft]
+    exact Nat.pow_lt_pow_right (by norm_num) (hns n (by simp))
+
+/-- what `allow` does: exactly the listed pitch classes are added -/
+theorem allow_spec (q : Quantizer) (ns : List Nat) (k : Nat) :
+    bit (q.allow ns).allowed k = (bit q.allowed k || decide (k ∈ ns)) := by
+  simp only [Quantizer.allow]
+  induction ns generalizing q with
+  | nil => simp
+  | cons n ns ih =>
+    simp only [List.foldl_cons, List.mem_cons]
+    rw [ih { q with allowed := q.allowed ||| (1 <<< n) }]
+    simp only [bit_allow_one]
+    have : decide (n = k) = decide (k = n) := by simp [eq_comm]
+    rw [this, Bool.or_assoc, Bool.decide_or]
+
+theorem allow_ne_zero (q : Quantizer) (ns : List Nat) (h : q.allowed ≠ 0) : (q.allow ns).allowed ≠ 0 := by
+  obtain ⟨i, hi⟩ := Nat.exists_testBit_of_ne_zero h
+  have : bit (q.allow ns).allowed i = true := by rw [allow_spec, bit_eq_testBit, hi]; rfl
+  intro hz; rw [hz] at this; simp [bit] at this
+
+theorem allow_inv (q : Quantizer) (ns : List Nat) (hns : ∀ n ∈ ns, n < 12) (h : QInv q) : QInv (q.allow ns) :=
+  ⟨allow_lt q ns hns h.1, allow_ne_zero q ns h.2⟩
+
+private theorem forbid_fold_le (ns : List Nat) (a : Nat) :
+    ns.foldl (fun a n => a &&& (0xffff ^^^ (1 <<< n))) a ≤ a := by
+  induction ns generalizing a with
+  | nil => simp
+  | cons n ns ih => simp only [List.foldl_cons]; exact le_trans (ih _) Nat.and_le_left
+
+/-- what the clearing pass of `forbid` does -/
+theorem forbid_fold_spec (ns : List Nat) (a k : Nat) (hk : k < 16) :
+    bit (ns.foldl (fun a n => a &&& (0xffff ^^^ (1 <<< n))) a) k = (bit a k && !decide (k ∈ ns)) := by
+  induction ns generalizing a with
+  | nil => simp
+  | cons n ns ih =>
+    simp only [List.foldl_cons, List.mem_cons]
+    rw [ih, bit_forbid_one _ _ _ hk]
+    have : decide (n = k) = decide (k = n) := by simp [eq_comm]
+    rw [this, Bool.and_assoc, Bool.decide_or, Bool.not_or]
+
+/-- `forbid` never panics when the scale is non-empty, keeps the invariant, and -- if it would have emptied the
+scale -- leaves the last note of its argument allowed -/
+theorem forbid_inv (q : Quantizer) (ns : List Nat) (hns : ∀ n ∈ ns, n < 12) (h : QInv q) :
+    ∃ q', q.forbid ns = some q' ∧ QInv q' ∧
+      ((ns.foldl (fun a n => a &&& (0xffff ^^^ (1 <<< n))) q.allowed = 0) →
+        ∃ l, ns.getLast? = some l ∧ bit q'.allowed l = true) := by
+  unfold Quantizer.forbid
+  dsimp only
+  split
+  · rename_i hz
+    simp only [beq_iff_eq] at hz
+    cases hl : ns.getLast? with
+    | none =>
+      have : ns = [] := by simpa using hl
+      subst this
+      simp only [List.foldl_nil] at hz
+      exact absurd hz h.2
+    | some n =>
+      have hn : n < 12 := hns n (List.mem_of_getLast? hl)
+      refine ⟨_, rfl, ?_, fun _ => ⟨n, rfl, ?_⟩⟩
+      · constructor
+        · simp only [Quantizer.allow, List.foldl_cons, List.foldl_nil, hz]
+          rw [Nat.zero_or, Nat.one_shiftLeft]
+          exact Nat.pow_lt_pow_right (by norm_num) hn
+        · have : bit (({ q with allowed := ns.foldl (fun a n => a &&& (0xffff ^^^ (1 <<< n))) q.allowed } : Quantizer).allow [n]).allowed n = true := by
+            simp [Quantizer.allow, bit_allow_one]
+          intro h0; rw [h0] at this; simp [bit] at this
+      · simp [Quantizer.allow, bit_allow_one]
+  · rename_i hz
+    have hz' : ns.foldl (fun a n => a &&& (0xffff ^^^ (1 <<< n))) q.allowed ≠ 0 := by simpa using hz
+    exact ⟨_, rfl, ⟨lt_of_le_of_lt (forbid_fold_le ns q.allowed) h.1, hz'⟩, fun h0 => absurd h0 hz'⟩
+
+/-! ### conversions -/
+
+theorem vMax_eq : vMax = .fin 10 false := by decide +kernel
+theorem octave_f32 : ofNat Gen.oneOctaveUv = .fin 1000000 false := by decide +kernel
+
+/-- the clamped input is a finite value in [0, 10], for every f32 input -/
+theorem clamped_range (v : F32) : ∃ q nz, fmin (fmax v zero) vMax = .fin q nz ∧ 0 ≤ q ∧ q ≤ 10 := by
+  rw [vMax_eq]
+  cases v with
+  | nan => exact ⟨0, false, by simp [fmax, fmin, zero, mixedZeros, lt], le_refl _, by norm_num⟩
+  | inf s =>
+    cases s
+    · exact ⟨10, false, by simp [fmax, fmin, zero, mixedZeros, lt], by norm_num, le_refl _⟩
+    · exact ⟨0, false, by simp [fmax, fmin, zero, mixedZeros, lt], le_refl _, by norm_num⟩
+  | fin q nz =>
+    by_cases h0 : q = 0
+    · subst h0
+      cases nz
+      · exact ⟨0, false, by simp [fmax, fmin, zero, mixedZeros, lt], le_refl _, by norm_num⟩
+      · exact ⟨0, false, by simp [fmax, fmin, zero, mixedZeros, lt], le_refl _, by norm_num⟩
+    · have hq : (q == 0) = false := by simpa using h0
+      by_cases h1 : q < 0
+      · exact ⟨0, false, by simp [fmax, fmin, zero, mixedZeros, lt, hq, h1], le_refl _, by norm_num⟩
+      · by_cases h2 : (10:ℚ) < q
+        · exact ⟨10, false, by simp [fmax, fmin, zero, mixedZeros, lt, hq, h1, h2], by norm_num, le_refl _⟩
+        · refine ⟨q, nz, by simp [fmax, fmin, zero, mixedZeros, lt, hq, h1, h2], not_lt.mp h1, not_lt.mp h2⟩
+
+theorem toU32_fin_le (r : ℚ) (nz : Bool) (N : ℕ) (h : r ≤ N) (hN : N < 2 ^ 32) : toU32 (.fin r nz) ≤ N := by
+  simp only [toU32]
+  split
+  · omega
+  · rename_i hneg
+    have h0 : 0 ≤ r := not_lt.mp hneg
+    have hf : r.floor.toNat ≤ N := by
+      have : r.floor ≤ (N:ℤ) := by
+        have h' : (⌊r⌋ : ℤ) ≤ ⌊(N:ℚ)⌋ := Int.floor_le_floor h
+        have h'' : (⌊r⌋ : ℤ) ≤ (N:ℤ) := by simpa using h'
+        exact h''
+      omega
+    split <;> omega
+
+/-- the µV value the search runs on never exceeds 10 V -/
+theorem microvolts_le (v : F32) : toMicrovolts (fmin (fmax v zero) vMax) ≤ 10000000 := by
+  obtain ⟨q, nz, hq, h0, h10⟩ := clamped_range v
+  rw [hq, toMicrovolts, octave_f32, mul_fin]
+  have hx : q * 1000000 ≤ 10000000 := by linarith
+  have hx0 : 0 ≤ q * 1000000 := by positivity
+  have hr : rnd (q * 1000000) ≤ 10000000 := by
+    have := rnd_le_of_le hx (by simpa using rep_int (n := 10000000) (by norm_num))
+    simpa using this
+  have hr0 : 0 ≤ rnd (q * 1000000) := rnd_nonneg hx0
+  have hov : |rnd (q * 1000000)| < 2 ^ (128:ℤ) := by
+    rw [abs_of_nonneg hr0]; exact lt_of_le_of_lt hr (by norm_num)
+  rw [round_def, qabs_eq, pow2_eq, if_neg (not_le.mpr hov)]
+  split
+  · exact toU32_fin_le 0 _ 10000000 (by norm_num) (by norm_num)
+  · exact toU32_fin_le _ _ 10000000 (by exact_mod_cast hr) (by norm_num)
+
+theorem decode (n oct : Nat) (hn : n < 12) (ho : oct ≤ 11) :
+    ((n * Gen.halfStepUv + oct * Gen.oneOctaveUv) / Gen.halfStepUv) % 256 % 12 = n := by
+  obtain ⟨h1, h2, _⟩ := consts
+  rw [h1, h2]
+  have e : (n * 83333 + oct * 1000000) / 83333 = n + 12 * oct := by omega
+  have e2 : (n + 12 * oct) % 256 = n + 12 * oct := by omega
+  have e3 : (n + 12 * oct) % 12 = n := by omega
+  rw [e, e2, e3]
+
+/-- the search returns a note whose pitch class is allowed -/
+theorem findNearestUv_allowed (allowed vin : Nat) (ha : ∃ n, n < 12 ∧ bit allowed n = true) (hv : vin ≤ 10000000) :
+    bit allowed (findNearestUv allowed vin % 12) = true := by
+  obtain ⟨h1, h2, h3⟩ := consts
+  have ho : vin / Gen.oneOctaveUv ≤ 10 := by rw [h2]; omega
+  -- every candidate decodes to an allowed pitch class and is close enough for u32 arithmetic
+  have hC : ∀ c ∈ allCands allowed vin, ∃ n oct, n < 12 ∧ oct ≤ 11 ∧ bit allowed n = true ∧
+      c = n * Gen.halfStepUv + oct * Gen.oneOctaveUv := by
+    intro c hc
+    simp only [allCands, List.mem_flatMap] at hc
+    obtain ⟨oct, hoct, hc⟩ := hc
+    obtain ⟨n, hn, hb, rfl⟩ := mem_octaveCands.mp hc
+    obtain ⟨hle, himp⟩ := mem_octavesToSearch hoct
+    exact ⟨n, oct, hn, by omega, hb, rfl⟩
+  have hne : allCands allowed vin ≠ [] := by
+    obtain ⟨n, hn, hb⟩ := ha
+    intro hnil
+    have : n * Gen.halfStepUv + (vin / Gen.oneOctaveUv) * Gen.oneOctaveUv ∈ allCands allowed vin := by
+      simp only [allCands, List.mem_flatMap]
+      exact ⟨_, self_mem_octavesToSearch _, mem_octaveCands.mpr ⟨n, hn, hb, rfl⟩⟩
+    rw [hnil] at this; simp at this
+  have hd : ∀ c ∈ allCands allowed vin, delta vin c < 2 ^ 32 - 1 := by
+    intro c hc
+    obtain ⟨n, oct, hn, hoct, _, rfl⟩ := hC c hc
+    rw [h1, h2]; unfold delta; split <;> omega
+  have hmem := scan_result_mem (vin := vin) (allCands allowed vin) hne hd
+  obtain ⟨n, oct, hn, hoct, hb, he⟩ := hC _ hmem
+  have : findNearestUv allowed vin =
+      (((allCands allowed vin).foldl (scanStep vin) {}).result / Gen.halfStepUv) % 256 := rfl
+  rw [this, he, decode n oct hn hoct]
+  exact hb
+
+/-- **C07, one call.** Whatever the input and whatever was cached, the reported note is allowed now. -/
+theorem convert_allowed (q : Quantizer) (h : QInv q) (v : F32) :
+    bit q.allowed ((q.convert v).2.note % 12) = true ∧ (q.convert v).1.allowed = q.allowed := by
+  unfold Quantizer.convert
+  split
+  · rename_i hc
+    simp only [Bool.and_eq_true] at hc
+    have hlt : q.cached.note % 12 < 12 := Nat.mod_lt _ (by norm_num)
+    have : noteNew (q.cached.note % 12) = q.cached.note % 12 := by simp [noteNew]; omega
+    rw [this, isAllowed_eq] at hc
+    exact ⟨hc.1, rfl⟩
+  · refine ⟨?_, rfl⟩
+    simp only [convertFresh]
+    exact findNearestUv_allowed _ _ (exists_allowed h) (microvolts_le v)
+
+/-! ### histories -/
+
+inductive Op
+  | allow (ns : List Nat)     -- arguments are `Note`s: already clamped to 0..11 by `Note::new`
+  | forbid (ns : List Nat)
+  | convert (v : F32)
+
+def Op.wf : Op → Prop
+  | .allow ns | .forbid ns => ∀ n ∈ ns, n < 12
+  | .convert _ => True
+
+/-- run a history; `none` = panic; collects (scale at the time of the call, reported note) per conversion -/
+def run (q : Quantizer) : List Op → Option (Quantizer × List (Nat × Nat))
+  | [] => some (q, [])
+  | .allow ns :: ops => run (q.allow ns) ops
+  | .forbid ns :: ops => match q.forbid ns with
+    | none => none
+    | some q' => run q' ops
+  | .convert v :: ops => match run (q.convert v).1 ops with
+    | none => none
+    | some (q', rs) => some (q', (q.allowed, (q.convert v).2.note) :: rs)
+
+/-- **C07, all histories.** No history of well-formed scale edits and conversions panics, and every conversion
+reports a note whose pitch class is allowed in the scale in force at that call. -/
+theorem history_allowed (q : Quantizer) (h : QInv q) (ops : List Op) (hw : ∀ o ∈ ops, o.wf) :
+    ∃ q' rs, run q ops = some (q', rs) ∧ QInv q' ∧ ∀ r ∈ rs, bit r.1 (r.2 % 12) = true := by
+  induction ops generalizing q with
+  | nil => exact ⟨q, [], rfl, h, by simp⟩
+  | cons o ops ih =>
+    have hw' : ∀ o ∈ ops, o.wf := fun x hx => hw x (by simp [hx])
+    have hwo := hw o (by simp)
+    cases o with
+    | allow ns => exact ih (q.allow ns) (allow_inv q ns hwo h) hw'
+    | forbid ns =>
+      obtain ⟨q1, hq1, hi1, _⟩ := forbid_inv q ns hwo h
+      obtain ⟨q', rs, hr, hi, hall⟩ := ih q1 hi1 hw'
+      exact ⟨q', rs, by simp [run, hq1, hr], hi, hall⟩
+    | convert v =>
+      obtain ⟨hb, ha⟩ := convert_allowed q h v
+      have hi1 : QInv (q.convert v).1 := by unfold QInv; rw [ha]; exact h
+      obtain ⟨q', rs, hr, hi, hall⟩ := ih _ hi1 hw'
+      refine ⟨q', (q.allowed, (q.convert v).2.note) :: rs, by simp [run, hr], hi, ?_⟩
+      intro r hr'
+      simp only [List.mem_cons] at hr'
+      rcases hr' with rfl | hr'
+      · exact hb
+      · exact hall r hr'
+
+theorem history_from_new (ops : List Op) (hw : ∀ o ∈ ops, o.wf) :
+    ∃ q' rs, run Quantizer.new ops = some (q', rs) ∧ ∀ r ∈ rs, bit r.1 (r.2 % 12) = true := by
+  obtain ⟨q', rs, h1, _, h3⟩ := history_allowed _ inv_new ops hw
+  exact ⟨q', rs, h1, h3⟩
+
+/-- non-vacuity: convert in octave 1, forbid the reported pitch class, convert the same input again -/
+example : (run Quantizer.new [.convert (ofBits 0x3f8bf258), .forbid [1], .convert (ofBits 0x3f8bf258)]).map (·.2)
+    = some [(0xfff, 13), (0xffd, 14)] := by decide +kernel
+
 end C07
